@@ -12,6 +12,9 @@ def await_source(events, v, depth=0):
     for _ in range(40):
         if isinstance(v, Ref):
             v = v.val.v if (v.frame is None and isinstance(v.val, Cell)) else v
+        if isinstance(v, Agg) and v.variant in ("Some", "Ok") and len(v.fields) == 1:
+            v = origin(v.fields[0])
+            continue
         if not isinstance(v, Sym) or not isinstance(v.tag, tuple):
             return None
         if v.tag[0] == "await":
@@ -111,7 +114,10 @@ def check(rep, tier, seed):
     setters = 2 if tier == "quick" else 3
     cex = []
     # site 1: the proxied route
-    hm = HandlerModel(ctx, rep)
+    # the key getters of the wrapper are inlined down to the single actor round-trip (get_key = one GetKey message)
+    keep10 = re.compile(KEEP.pattern.replace("SharedState::|", "(?<!KeyKeeper)SharedState::|KeyKeeperSharedState::(get_key|set_key|update_key|clear_key)$|"))
+    hm = HandlerModel(ctx, rep, keep=keep10)
+    rep.stubs.append("one actor message = one await of KeyKeeperSharedState::get_key (the private GetKey round-trip); the public getters are inlined")
     seen = False
     for p in hm.paths:
         cs = [e for e in p.events if e.kind == "call" and e.callee.endswith("compute_signature")]
@@ -147,6 +153,9 @@ def check(rep, tier, seed):
             rep.add(Query("%s::%s located" % (ty, fn), "inconclusive", str(e), 0, "mirsym"))
             continue
         eng = ctx.engine()
+        only_getters = re.compile(r"KeyKeeperSharedState::get_current_key")
+        base_auto = make_auto_inline(hm.cg, keep10)
+        eng.auto_inline = lambda engine, callee, caller: base_auto(engine, callee, caller) if only_getters.search(callee) else None
         paths = eng.explore(w + "::{closure#0}")
         rep.functions_encoded.append(w + "::{closure#0}")
         done = False
@@ -154,9 +163,11 @@ def check(rep, tier, seed):
             gets = [e for e in r.events if e.kind == "call" and re.search(r"hyper_client::get$|(^|::)get$", e.callee) and len(e.rargs) >= 4]
             if not gets or done:
                 continue
-            done = True
             ev_g = await_source(r.events, gets[0].rargs[2])
             ev_v = await_source(r.events, gets[0].rargs[3])
+            if ev_g is None or ev_v is None:
+                continue          # a path on which no key is latched: nothing is signed
+            done = True
             c = schedule_query(rep, "%s::%s" % (ty, fn), ev_v, ev_g, r.events, setters)
             if c:
                 c["first_is_value"] = r.events.index(ev_v) < r.events.index(ev_g)
